@@ -18,7 +18,7 @@ import (
 
 // TCase is a self-recursive temporal program that creates a new atom per round.
 type TCase struct {
-	Shape string `json:"shape"` // t-plus, t-mutual, t-counter (finite: X < Upto)
+	Shape string `json:"shape"` // t-plus, t-mutual, t-counter (finite: X < Upto), t-window (same atom, touching intervals)
 	Step  int64  `json:"step"`
 	Upto  int64  `json:"upto"`
 	Point bool   `json:"point"` // @[T] instead of @[S, E]
@@ -26,6 +26,8 @@ type TCase struct {
 	Limit int    `json:"limit"`
 	// OptOrder permutes the three evaluation options (their order must not matter).
 	OptOrder int `json:"optOrder,omitempty"`
+	// Cap > 0: the temporal store is created with WithMaxIntervalsPerAtom(Cap) (0: the default cap).
+	Cap int `json:"cap,omitempty"`
 }
 
 func (c TCase) text() string {
@@ -35,7 +37,7 @@ func (c TCase) text() string {
 		sb.WriteString("Decl tq(X) temporal bound [/number].\n")
 	}
 	ann, iv := "@[S, E]", "@[2024-01-01T00:00:00Z, 2024-01-02T00:00:00Z]"
-	if c.Point {
+	if c.Point && c.Shape != "t-window" {
 		ann, iv = "@[T]", "@[2024-01-01T00:00:00Z]"
 	}
 	for i := 1; i <= c.Seeds; i++ {
@@ -49,6 +51,9 @@ func (c TCase) text() string {
 		fmt.Fprintf(&sb, "tp(Y)%s :- tq(X)%s, Y = fn:plus(X, %d) .\n", ann, ann, c.Step)
 	case "t-counter":
 		fmt.Fprintf(&sb, "tp(Y)%s :- tp(X)%s, X < %d, Y = fn:plus(X, 1) .\n", ann, ann, c.Upto)
+	case "t-window":
+		// every round appends a touching interval to the SAME atom: the per-atom interval cap or the limit must stop it
+		fmt.Fprintf(&sb, "tp(X)@[T2, T3] :- tp(X)@[T1, T2], T3 = fn:time:add(T2, fn:duration:parse(\"%dh\")) .\n", c.Step)
 	}
 	return sb.String()
 }
@@ -93,6 +98,9 @@ func checkTemporal(run *stats.Run, f stats.Failer, c TCase) verdict {
 	created := 0
 	plain := countingStore{FactStore: factstore.NewMultiIndexedArrayInMemoryStore(), created: &created, bound: B}
 	tinner := factstore.NewTemporalStore()
+	if c.Cap > 0 {
+		tinner = factstore.NewTemporalStore(factstore.WithMaxIntervalsPerAtom(c.Cap))
+	}
 	temporal := countingTemporal{TemporalFactStore: tinner, created: &created, bound: B}
 	var evalErr error
 	var over *overrun
@@ -167,7 +175,7 @@ func TestC17_Temporal(t *testing.T) {
 	defer run.Finish(t)
 	rapid.Check(t, func(rt *rapid.T) {
 		c := TCase{
-			Shape: rapid.SampledFrom([]string{"t-plus", "t-mutual", "t-counter"}).Draw(rt, "shape"),
+			Shape: rapid.SampledFrom([]string{"t-plus", "t-mutual", "t-counter", "t-window", "t-window"}).Draw(rt, "shape"),
 			Step:  rapid.Int64Range(1, 3).Draw(rt, "step"),
 			Upto:  rapid.Int64Range(2, 40).Draw(rt, "upto"),
 			Point: rapid.Bool().Draw(rt, "point"),
@@ -175,6 +183,7 @@ func TestC17_Temporal(t *testing.T) {
 			Limit: rapid.SampledFrom([]int{1, 2, 3, 5, 8, 13, 21}).Draw(rt, "limit"),
 		}
 		c.OptOrder = rapid.IntRange(0, 5).Draw(rt, "optOrder")
+		c.Cap = rapid.SampledFrom([]int{0, 0, 2, 5, 20}).Draw(rt, "cap")
 		run.Current(c)
 		vd := checkTemporal(run, rt, c)
 		run.Case(vd.nontrivial, stats.Hash(fmt.Sprintf("%+v", c)), vd.labels...)
